@@ -38,7 +38,9 @@ type c14Case struct {
 	Reqs    []c14Req `json:"reqs"`
 }
 
-var c14Kinds = []string{"ok", "ok", "ok", "declared", "error", "appex", "unknown", "missing", "wrongtype", "oneway", "truncated"}
+// limit413: a well-formed call whose reply exceeds the payload limit the client asked for
+// (HTTP only; elsewhere it is an ordinary "ok" call)
+var c14Kinds = []string{"ok", "ok", "ok", "declared", "error", "appex", "unknown", "missing", "wrongtype", "oneway", "truncated", "limit413"}
 
 func genC14(t *rapid.T) c14Case {
 	c := c14Case{}
@@ -88,7 +90,7 @@ func c14Frame(proto string, kind string, id int) (frame []byte, opid string) {
 	arg := fmt.Sprintf("%s:%d", kind, id)
 	var msg []byte
 	switch kind {
-	case "ok", "declared", "error", "appex":
+	case "ok", "declared", "error", "appex", "limit413":
 		msg = thriftMessage(proto, "echo", thrift.CALL, &strStruct{Name: "echo_args", ID: 1, V: &arg})
 	case "oneway":
 		msg = thriftMessage(proto, "fire", thrift.ONEWAY, &strStruct{Name: "fire_args", ID: 1, V: &arg})
@@ -165,9 +167,9 @@ func checkReply(proto, kind string, id int, opid string, content []byte) *ev.Fai
 	}
 	wantEx := int32(-1)
 	switch kind {
-	case "ok":
-		if r.mtype != thrift.REPLY || r.result.Success == nil || *r.result.Success != fmt.Sprintf("echo:ok:%d", id) {
-			return ev.Failf("reply-content", "%s: want REPLY echo:ok:%d, got type %d %+v", what, id, r.mtype, r.result)
+	case "ok", "limit413":
+		if r.mtype != thrift.REPLY || r.result.Success == nil || *r.result.Success != fmt.Sprintf("echo:%s:%d", kind, id) {
+			return ev.Failf("reply-content", "%s: want REPLY echo:%s:%d, got type %d %+v", what, kind, id, r.mtype, r.result)
 		}
 	case "declared":
 		if r.mtype != thrift.REPLY || r.result.Oops == nil || r.result.Oops.V == nil || *r.result.Oops.V != fmt.Sprintf("declared:%d", id) || r.result.Success != nil {
@@ -351,13 +353,25 @@ func execC14Inner(c c14Case) *ev.Failure {
 				hc := &http.Client{Timeout: 10 * time.Second}
 				for _, it := range byConn[cn] {
 					frame, opid := c14Frame(c.Proto, it.kind, it.id)
-					resp, err := hc.Post(ts.URL, "application/x-frugal", strings.NewReader(base64.StdEncoding.EncodeToString(frame)))
+					hreq, _ := http.NewRequest("POST", ts.URL, strings.NewReader(base64.StdEncoding.EncodeToString(frame)))
+					hreq.Header.Set("Content-Type", "application/x-frugal")
+					if it.kind == "limit413" {
+						hreq.Header.Set("x-frugal-payload-limit", "5")
+					}
+					resp, err := hc.Do(hreq)
 					if err != nil {
 						fails[cn] = ev.Failf("no-reply", "http request %d (%s): %v", it.id, it.kind, err)
 						return
 					}
 					body, _ := io.ReadAll(resp.Body)
 					resp.Body.Close()
+					if it.kind == "limit413" {
+						if resp.StatusCode != http.StatusRequestEntityTooLarge {
+							fails[cn] = ev.Failf("limit-not-enforced", "http request %d: reply above the requested payload limit was answered with status %d", it.id, resp.StatusCode)
+							return
+						}
+						continue
+					}
 					if resp.StatusCode != 200 {
 						fails[cn] = ev.Failf("no-reply", "http request %d (%s): status %d %q", it.id, it.kind, resp.StatusCode, trunc(string(body), 120))
 						return
@@ -492,7 +506,7 @@ func execC14Inner(c c14Case) *ev.Failure {
 			key := fmt.Sprintf("%s:%d", it.kind, it.id)
 			want := 0
 			switch it.kind {
-			case "ok", "declared", "error", "appex", "oneway":
+			case "ok", "declared", "error", "appex", "oneway", "limit413":
 				want = 1
 			}
 			if it.kind == "oneway" && c.Server == "simple" {
